@@ -134,3 +134,45 @@ def gain_dev_db (ga, gb, floor = -40.0):
         return 0.0
     return float (np.abs (ga [sel] - gb [sel]).max ())
 # end def gain_dev_db
+
+# ---- on-the-spot experiments used to classify a deviation as a known finding (never to accept one silently)
+
+import contextlib
+
+@contextlib.contextmanager
+def gauss_order_fixed ():
+    """ experiment: every potential integral with the 8-point rule. The program chooses 8 / 4 / 2 points by
+        t = (d0 + d3) / segment length against the thresholds 6 and 10; on a straight, equally segmented wire t
+        is a whole or half number for every pair of pulses, so pairs sit exactly on a threshold and the last bit of
+        the coordinates decides the rule. Two descriptions of one antenna that differ in rounding then differ by the
+        8- / 4-point quadrature difference (5e-5 of the entry) in a whole band of the matrix.
+    """
+    MM   = common.repo ()
+    orig = MM.Mininec.fast_quad
+    def fast_quad (self, a, b, args, n):
+        return orig (self, a, b, args, 8)
+    MM.Mininec.fast_quad = fast_quad
+    try:
+        yield
+    finally:
+        MM.Mininec.fast_quad = orig
+# end def gauss_order_fixed
+
+def threshold_pairs (m):
+    """ number of potential integrals of the matrix fill of m whose order criterion t lies within 1e-9 (relative) of
+        a threshold (6 or 10), counted by a wrapped Mininec.psi during a refill """
+    MM   = common.repo ()
+    orig = MM.Mininec.psi
+    n    = [0]
+    def psi (self, vec2, vecv, k, scale, pidx, exact = False, fvs = 0):
+        L  = np.atleast_1d (self.pulses.seg_len.T [int (scale > 0)][pidx])
+        t  = (np.linalg.norm (np.asarray (vec2, float), axis = -1) + np.linalg.norm (np.asarray (vecv, float), axis = -1)) / L
+        n [0] += int ((np.minimum (np.abs (t - 6), np.abs (t - 10)) < 1e-9 * 10).sum ())
+        return orig (self, vec2, vecv, k, scale, pidx, exact = exact, fvs = fvs)
+    MM.Mininec.psi = psi
+    try:
+        common.guarded (m.compute_impedance_matrix, 'compute_impedance_matrix')
+    finally:
+        MM.Mininec.psi = orig
+    return n [0]
+# end def threshold_pairs
